@@ -105,7 +105,8 @@ type TextStyle struct {
 	TabSize       TabSize
 }
 
-// If ignoreSpacing is true, 'word-spacing' and 'letter-spacing' are
+// If ignoreSpacing is true, the properties whose value may be expressed in ex or ch units
+// ('font-size', 'word-spacing', 'letter-spacing', 'tab-size', 'hyphenate-limit-zone') are
 // not queried from [style]
 func NewTextStyle(style pr.StyleAccessor, ignoreSpacing bool) *TextStyle {
 	var out TextStyle
@@ -114,7 +115,11 @@ func NewTextStyle(style pr.StyleAccessor, ignoreSpacing bool) *TextStyle {
 	out.FontDescription.Style = newFontStyle(style.GetFontStyle())
 	out.FontDescription.Weight = newFontWeight(style.GetFontWeight())
 	out.FontDescription.Stretch = newFontStretch(style.GetFontStretch())
-	out.FontDescription.Size = pr.Fl(style.GetFontSize().Value)
+	if !ignoreSpacing {
+		// when measuring the ex/ch ratio the size is replaced anyway; reading it here would
+		// recurse forever for 'font-size: 3ex'
+		out.FontDescription.Size = pr.Fl(style.GetFontSize().Value)
+	}
 	out.FontDescription.VariationSettings = newFontVariationSettings(style.GetFontVariationSettings())
 
 	out.FontLanguageOverride = newFontLanguageOverrride(style.GetFontLanguageOverride())
@@ -129,16 +134,16 @@ func NewTextStyle(style pr.StyleAccessor, ignoreSpacing bool) *TextStyle {
 	out.Hyphens = newHyphens(style.GetHyphens())
 	out.HyphenateLimitChars = style.GetHyphenateLimitChars()
 	out.HyphenateCharacter = string(style.GetHyphenateCharacter())
-	out.HyphenateLimitZone = newHyphenateZone(style.GetHyphenateLimitZone())
 
 	if !ignoreSpacing {
+		out.HyphenateLimitZone = newHyphenateZone(style.GetHyphenateLimitZone())
+		out.TabSize = newTabSize(style.GetTabSize())
+
 		out.WordSpacing = pr.Fl(style.GetWordSpacing().Value)
 		if ls := style.GetLetterSpacing(); ls.S != "normal" {
 			out.LetterSpacing = pr.Fl(ls.Value)
 		}
 	}
-
-	out.TabSize = newTabSize(style.GetTabSize())
 
 	out.FontFeatures = getFontFeatures(style)
 
